@@ -113,6 +113,51 @@ let run_http fixed =
         print_endline (String.concat " " ("D" :: string_of_int (List.length fs) :: List.map str_of_frame fs))
       | _ -> ()) (read_lines ())
 
+(* ---- engine V: handler dispatch model (Model/Handler.v) --------------------------------- *)
+let kv_of toks =
+  List.filter_map (fun t -> match String.index_opt t '=' with
+      | Some i -> Some (String.sub t 0 i, String.sub t (i + 1) (String.length t - i - 1))
+      | None -> None) toks
+let getk k l = try List.assoc k l with Not_found -> "-"
+
+let run_handler () =
+  let conf = ref None and prog = ref None and frames = ref [] in
+  List.iter (fun line ->
+      let toks = List.filter (fun s -> s <> "") (String.split_on_char ' ' (String.trim line)) in
+      match toks with
+      | "CONF" :: rest ->
+        let kv = kv_of rest in
+        conf := Some { h_id = id_of (getk "id" kv); h_ctx = id_of (getk "ctx" kv);
+                       h_name = bytes_of_xhex (getk "name" kv); h_suffix = bytes_of_xhex (getk "suffix" kv);
+                       h_ttl = ttl_of (getk "ttl" kv) }
+      | "PROG" :: rest ->
+        let kv = kv_of rest in
+        let rec apps = function
+          | "A" :: topic :: meta :: ttl :: ctx :: content :: r ->
+            { oa_topic = bytes_of_xhex topic; oa_meta = opt bytes_of_xhex meta; oa_ttl = ttl_of ttl;
+              oa_ctx = opt id_of ctx; oa_content = bytes_of_xhex content } :: apps r
+          | _ :: r -> apps r
+          | [] -> [] in
+        let ret = match String.split_on_char ':' (getk "ret" kv) with
+          | ["nothing"] -> RNothing | ["str"; s] -> RStr (bytes_of_xhex s) | ["int"; n] -> RInt (n_of_hex n)
+          | ["count"] -> RCount | ["topic"] -> RTopic | _ -> failwith "ret" in
+        let fail = match String.split_on_char ':' (getk "fail" kv) with
+          | ["none"] -> FNone | ["before"] -> FBefore | ["after"] -> FAfter
+          | ["between"; k] -> FBetween (Schedgen.nat_of_int (int_of_string k)) | _ -> failwith "fail" in
+        prog := Some { p_guard = opt bytes_of_xhex (getk "guard" kv); p_appends = apps rest; p_ret = ret; p_fail = fail }
+      | ["F"; id; ctx; topic; hid] ->
+        frames := { sf_id = id_of id; sf_ctx = id_of ctx; sf_topic = bytes_of_xhex topic; sf_hid = opt id_of hid } :: !frames
+      | _ -> ()) (read_lines ());
+  match !conf, !prog with
+  | Some c, Some p ->
+    let (outs, seen) = serve (dsl_closure p) c N0 (List.rev !frames) in
+    List.iter (fun e ->
+        Printf.printf "E %s %s %s %s %s %s %s %d\n" (xhex_of_bytes e.e_topic) (str_of_id e.e_ctx) (str_of_id e.e_hid)
+          (str_of_id e.e_fid) (str_of_ttl e.e_ttl) (str_of_optbytes e.e_content) (str_of_optbytes e.e_meta)
+          (if e.e_err then 1 else 0)) outs;
+    List.iter (fun f -> Printf.printf "SEEN %s\n" (str_of_id f.sf_id)) seen
+  | _ -> failwith "handler: missing CONF/PROG"
+
 (* `gen-sched <locked 0|1> <seed> <steps> <finish 0|1>`: stdin = configuration lines;
    stdout = schedule with expectations.
    `labels-sched <locked>`: stdin = configuration lines followed by "label idx" lines. *)
@@ -120,6 +165,7 @@ let () =
   match Array.to_list Sys.argv with
   | _ :: "seq" :: _ -> run_seq ()
   | [_; "http"; fixed] -> run_http (fixed = "1")
+  | [_; "handler"] -> run_handler ()
   | [_; "gen-sched"; locked; seed; steps; finish] ->
     let cfg = Schedgen.parse_cfg (read_lines ()) in
     List.iter print_endline
